@@ -187,6 +187,14 @@ def tx_sign(vm, n_in, n_out):
     for i in range(n_out):
         outs.append((vm.new_int('out_amount', 0, 2 ** 62), vm.new_run('oscript', 0, 200)))
         tx.add_outputs([Output(outs[-1][0], OutputScript(outs[-1][1]))])
+    if vm.new_bool('sized_then_changed'):
+        # what the wallet does between funding and signing: the transaction is sized / serialised once (fee computation),
+        # then an output is changed in place (a claim is signed by its channel, the change amount is set)
+        if len(tx.raw) != tx.size:
+            return 'VIOLATION: size differs from the length of the serialisation'
+        changed = vm.new_int('changed_amount', 0, 2 ** 62)
+        tx.outputs[0].amount = changed
+        outs[0] = (changed, outs[0][1])
     try:
         vm.await_(tx.sign([account]))
     except Exception as e:
@@ -353,6 +361,9 @@ def legacy_digest(vm):
     channel_hash = vm.new_bytes('channel_hash', 20)
     channel = StubChannel(channel_hash, keys[1])
     payload = vm.new_run('unsigned_payload', 1, 2 ** 16)
+    # the two digest pre-images (legacy: 25 + payload + 20 bytes, current: 36 + 20 + message bytes) have different lengths, so the
+    # ideal hash tells them apart without comparing opaque content byte by byte
+    vm.assume(len(payload) != len(claim.message.data) + 11)
     address_bytes = b'\x55' + keys[0].pubkey_hash + b'\x01\x02\x03\x04'
     claim.unsigned_payload = payload
     claim.signing_channel_hash = channel_hash
@@ -364,6 +375,16 @@ def legacy_digest(vm):
         if txo.is_signed_by(channel, ledger):
             return 'VIOLATION: a legacy claim still validates after its payload changed'
         return 'ok-rejected'
+    # the owner moves the claim to another channel: clear the old signature, sign again
+    other = StubChannel(vm.new_bytes('other_channel_hash', 20), keys[2])
+    txo.clear_signature()
+    if claim.is_signed:
+        return 'VIOLATION: clear_signature leaves signature data behind'
+    txo.sign(other)
+    if not txo.is_signed_by(other, ledger):
+        return 'VIOLATION: a legacy claim signed again by another channel does not validate against it'
+    if txo.is_signed_by(channel, ledger):
+        return 'VIOLATION: a re-signed claim still validates against its former channel'
     return 'ok'
 
 
